@@ -1500,6 +1500,11 @@ class RigServer(asyncssh.SSHServer):
 
         self.rig.requests.append(('tcp', dest_host, dest_port))
 
+        if self.rig.up_conn is not None:
+            # documented: an SSHClientConnection to tunnel the connection
+            # over
+            return self.rig.up_conn
+
         if self.rig.open_gate is not None:
             # the destination is connected only once the gate opens: the
             # open request stays in flight meanwhile
@@ -1519,7 +1524,7 @@ class RigServer(asyncssh.SSHServer):
 
     def unix_connection_requested(self, dest_path):
         self.rig.requests.append(('unix', dest_path))
-        return True
+        return self.rig.up_conn or True
 
     def server_requested(self, listen_host, listen_port):
         rig = self.rig
@@ -1614,6 +1619,8 @@ class Rig:
         self.sconns: List[Any] = []
         self.requests: List[Any] = []
         self.open_gate: Optional[asyncio.Event] = None
+        self.up_conn: Any = None
+        self.up_acceptor: Any = None
         self.open_done = 0
         self.listen_gate: Optional[asyncio.Event] = None
         self.listen_done = 0
@@ -1658,9 +1665,30 @@ class Rig:
                                (what, HARNESS_TIMEOUT)) from None
 
     async def start(self, server_opts=None, client_opts=None,
-                    via_proxy=False, connect=True):
+                    via_proxy=False, connect=True, tunnel=False):
         self.changed = asyncio.Event()
         rig = self
+
+        if tunnel:
+            # the server reaches its destinations over a second SSH
+            # connection (to a server that lets every request through)
+            class Upstream(asyncssh.SSHServer):
+                def begin_auth(self, username):
+                    return False
+
+                def connection_requested(self, *args):
+                    return True
+
+                def unix_connection_requested(self, *args):
+                    return True
+
+            self.up_acceptor = await self.must(asyncssh.listen(
+                '127.0.0.1', 0, server_factory=Upstream,
+                server_host_keys=[memwire.key('host')]), 'listen (upstream)')
+            self.up_conn = await self.must(asyncssh.connect(
+                '127.0.0.1', self.up_acceptor.get_port(), known_hosts=None,
+                username='relay', client_keys=None, config=None,
+                agent_path=None), 'connect (upstream)')
 
         class Server(RigServer):
             pass
@@ -1969,6 +1997,12 @@ class Rig:
         if self.acceptor is not None:
             self.acceptor.close()
 
+        if self.up_conn is not None:
+            self.up_conn.abort()
+
+        if self.up_acceptor is not None:
+            self.up_acceptor.close()
+
         if self.proxy is not None:
             self.proxy.close()
 
@@ -2201,7 +2235,15 @@ async def relay_scenario(rig: Rig, case, labels) -> bool:
                               'task': task_handler}.get(
                                   accept.split('-')[0], handler)
 
-    await rig.start()
+    tunnel = bool(case.get('tunnel')) and not kind.startswith('remote')
+
+    if tunnel:
+        labels.add('tunnelled')
+
+        if case['banner']:
+            labels.add('tunnelled:banner')
+
+    await rig.start(tunnel=tunnel)
     bwhere = await rig.start_b(b_unix)
     decoy = case.get('decoy', 'none')
     decoy_lst = None
@@ -2591,6 +2633,7 @@ def relay_strategy(tier: str):
         'decoy': pick(['none', 'none', 'before', 'after', 'after',
                        'after-cancelled', 'before-cancelled']),
         'slow': pick([False, False, True]),
+        'tunnel': pick([False, False, False, True]),
         'ops': st.lists(op, max_size=6),
         'end': pick(['a_half', 'b_half', 'a_half', 'b_half',
                                 'a_close', 'b_close', 'a_abort', 'b_abort',
@@ -3214,7 +3257,8 @@ FAMILIES = [
                                      'accept-future-deny',
                                      'accept-task-deny',
                                      'decoy-after', 'decoy-before',
-                                     'decoy-after-cancelled']},
+                                     'decoy-after-cancelled',
+                                     'tunnelled', 'tunnelled:banner']},
            case_timeout=120),
     Family('release', run_release, strategy=release_strategy,
            budget={'quick': 160, 'thorough': 2000},
